@@ -296,6 +296,11 @@ func (r *Runner) stop(ctx context.Context) bool {
 	if !r.handlingTrap && (r.exit.returning || r.exit.exiting) {
 		return true
 	}
+	if r.breakEnclosing > 0 || r.contnEnclosing > 0 {
+		// A break or continue is unwinding to its loop;
+		// the statements in between must not run.
+		return true
+	}
 	if err := ctx.Err(); err != nil {
 		r.exit.fatal(err)
 		return true
@@ -1122,10 +1127,16 @@ func (r *Runner) loopStmtsBroken(ctx context.Context, stmts []*syntax.Stmt) bool
 		r.stmt(ctx, stmt)
 		if r.contnEnclosing > 0 {
 			r.contnEnclosing--
+			if !oldInLoop {
+				r.contnEnclosing = 0 // outermost loop; no more levels to continue
+			}
 			return r.contnEnclosing > 0
 		}
 		if r.breakEnclosing > 0 {
 			r.breakEnclosing--
+			if !oldInLoop {
+				r.breakEnclosing = 0 // outermost loop; no more levels to break
+			}
 			return true
 		}
 	}
